@@ -6061,7 +6061,8 @@ class Query(object):
             for obj in objects: obj._delete_()
             return len(objects)
         translator = query._translator
-        sql_key = HashableDict(query._key, sql_command='DELETE')
+        sql_key = HashableDict(query._key, vartypes=HashableDict(translator.vartypes),
+                               fixed_param_values=HashableDict(translator.fixed_param_values), sql_command='DELETE')
         database = query._database
         cache = database._get_cache()
         cache_entry = database._constructed_sql_cache.get(sql_key)
